@@ -20,6 +20,7 @@ EXPLANATION = (
     "opcode tables (contract.OP_*, utils.EVM, utils.str_opcode) agree with each other and with the "
     "EVM table; duck-typed slice() receivers agree on parameter meaning; scanner and decoder use "
     "the same concreteness predicate. It does not decide ByteVec chunk arithmetic (values)."
+    " Also decided: the concrete fast prefix is exactly the first concrete chunk's bytes (never its backing buffer); raw slices of it are guarded to end inside it, through local aliases too; and the jump arms' advance(pc=...) operands (shared with C01 R01.3)."
 )
 ASSUMPTIONS = [
     "no monkey-patching of Contract / Instruction at run time (checked by meta-rule in C20 R20.4)",
